@@ -3,7 +3,7 @@
    H1/Gates.v and prints, after every poll, the black-box quantities the harness measures at the
    scripted socket and the recording service. *)
 From Coq Require Import String.
-From AV Require Import Lib.Base Lib.V Gen.Consts H1.Flush H1.Gates.
+From AV Require Import Lib.Base Lib.V Gen.Consts H1.Flush H1.Gates H1.GatesCfg.
 Open Scope N_scope.
 
 Record case := mk_case
@@ -15,12 +15,7 @@ Record case := mk_case
   ; k_handlers : list (list hact)
   ; k_rounds : list round }.
 
-(* shortest request head httparse accepts: "G / HTTP/1.1\r\n\r\n" *)
-Definition MIN_HEAD : N := 16.
-
-Definition cfg_of (k : case) : cfg :=
-  mk_cfg H1_MAX_BUFFER_SIZE H1_MAX_PIPELINED_MESSAGES H1_PAYLOAD_MAX_BUFFER_SIZE
-         (k_wbs k) (k_r k) MIN_HEAD (k_h431 k) (k_fix21 k).
+Definition cfg_of (k : case) : cfg := std_cfg (k_wbs k) (k_r k) (k_h431 k) (k_fix21 k).
 
 (* compact notation for long repetitive scripts *)
 Definition repN {A} (n : N) (x : A) : list A := repeat x (N.to_nat n).
